@@ -121,7 +121,12 @@ def resolve_idents(v, arm_body, target, getter, depth=0):
 def guard_sources(conds, arm_body, target, getter):
     """Sources that guard the write positively: (kind, what)."""
     out = set()
+    extra = []
     for f in conds:
+        if f[0] == "arm" and f[3] is not None:
+            from pathcond import split_cond
+            extra += split_cond(f[3], True)
+    for f in list(conds) + extra:
         if f[0] == "iflet" and f[3]:
             pat = render(f[1])
             if pat.startswith("Some") or "Some(" in pat:
